@@ -17,12 +17,22 @@ use std::time::{Duration, SystemTime, UNIX_EPOCH};
 /// Same contract as `core::slice::memchr::memchr`, naive loop (the SWAR original branches on
 /// pointer alignment, which is not concrete under the model checker).
 pub fn naive_memchr(x: u8, text: &[u8]) -> Option<usize> {
-    let mut i = 0;
-    while i < text.len() {
-        if text[i] == x {
-            return Some(i);
+    // nested loops of <= 8 iterations (texts up to 64 bytes) keep the global unwinding bound small
+    assert!(text.len() <= 64, "harness: memchr haystack longer than 64 bytes");
+    let mut o = 0;
+    while o < 8 {
+        let mut i = 0;
+        while i < 8 {
+            let k = o * 8 + i;
+            if k < text.len() && text[k] == x {
+                return Some(k);
+            }
+            i += 1;
         }
-        i += 1;
+        if (o + 1) * 8 >= text.len() {
+            break;
+        }
+        o += 1;
     }
     None
 }
@@ -186,7 +196,7 @@ pub struct HEnt {
 }
 
 pub const EH0: (&str, &str) = ("content-type", "text/plain");
-pub const EH1: (&str, &str) = ("x-verif", "v");
+pub const EH1: (&str, &str) = ("content-language", "en");
 
 impl Entity for HEnt {
     type Error = HErr;
@@ -213,12 +223,12 @@ impl Entity for HEnt {
             h.insert(header::CONTENT_TYPE, HeaderValue::from_static(EH0.1));
         }
         if self.nhdr >= 2 {
-            h.insert(HeaderName::from_static(EH1.0), HeaderValue::from_static(EH1.1));
+            h.insert(header::CONTENT_LANGUAGE, HeaderValue::from_static(EH1.1));
         }
     }
     fn etag(&self) -> Option<HeaderValue> {
         if let Some(ref b) = self.etag_bytes {
-            return Some(HeaderValue::model_from_vec(b.clone()));
+            return Some(HeaderValue::model_from_inline(&b[..]));
         }
         etag_text(self.etag).map(HeaderValue::from_static)
     }
@@ -251,7 +261,7 @@ pub struct Frame {
     pub b: u64, // Ent: len
 }
 
-pub const MAX_FRAMES: usize = 12;
+pub const MAX_FRAMES: usize = 8;
 
 pub struct Drain {
     pub frames: [Frame; MAX_FRAMES],
@@ -398,6 +408,70 @@ pub fn drain(
 // ---------------------------------------------------------------------------------------
 // Reading response headers back.
 
+/// One-pass snapshot of a response header map: for each header the harnesses care about,
+/// how many times it occurs and the bytes of its first value. (Looking headers up one by
+/// one costs a scan of the map per lookup on symbolic contents.)
+pub const S_ACCEPT_RANGES: usize = 0;
+pub const S_ETAG: usize = 1;
+pub const S_DATE: usize = 2;
+pub const S_LAST_MODIFIED: usize = 3;
+pub const S_CONTENT_LENGTH: usize = 4;
+pub const S_CONTENT_RANGE: usize = 5;
+pub const S_CONTENT_TYPE: usize = 6;
+pub const S_CONTENT_LANGUAGE: usize = 7;
+pub const S_ALLOW: usize = 8;
+pub const S_VARY: usize = 9;
+pub const S_CONTENT_ENCODING: usize = 10;
+pub const S_N: usize = 11;
+
+pub struct Snap<'a> {
+    pub count: [u8; S_N],
+    pub val: [Option<&'a [u8]>; S_N],
+    pub others: u8,
+    pub total: u8,
+}
+
+pub fn snap(h: &HeaderMap) -> Snap<'_> {
+    let names: [u16; S_N] = [
+        header::ACCEPT_RANGES.model_idx(),
+        header::ETAG.model_idx(),
+        header::DATE.model_idx(),
+        header::LAST_MODIFIED.model_idx(),
+        header::CONTENT_LENGTH.model_idx(),
+        header::CONTENT_RANGE.model_idx(),
+        header::CONTENT_TYPE.model_idx(),
+        header::CONTENT_LANGUAGE.model_idx(),
+        header::ALLOW.model_idx(),
+        header::VARY.model_idx(),
+        header::CONTENT_ENCODING.model_idx(),
+    ];
+    let mut s = Snap { count: [0; S_N], val: [None; S_N], others: 0, total: 0 };
+    let mut i = 0;
+    while i < http::header::MODEL_CAP {
+        if let Some((k, v)) = h.model_slot(i) {
+            s.total += 1;
+            let idx = k.model_idx();
+            let mut hit = false;
+            let mut j = 0;
+            while j < S_N {
+                if idx == names[j] {
+                    hit = true;
+                    s.count[j] += 1;
+                    if s.val[j].is_none() {
+                        s.val[j] = Some(v.as_bytes());
+                    }
+                }
+                j += 1;
+            }
+            if !hit {
+                s.others += 1;
+            }
+        }
+        i += 1;
+    }
+    s
+}
+
 pub fn hdr<'a>(h: &'a HeaderMap, name: &HeaderName) -> Option<&'a [u8]> {
     h.get(name).map(|v| v.as_bytes())
 }
@@ -413,34 +487,50 @@ pub fn count_hdr(h: &HeaderMap, name: &HeaderName) -> usize {
 }
 
 pub fn bytes_eq(a: &[u8], b: &[u8]) -> bool {
-    if a.len() != b.len() {
+    if a.len() != b.len() || a.len() > 64 {
         return false;
     }
-    let mut i = 0;
-    while i < a.len() {
-        if a[i] != b[i] {
-            return false;
+    let mut o = 0;
+    while o < 8 {
+        let mut i = 0;
+        while i < 8 {
+            let k = o * 8 + i;
+            if k < a.len() && a[k] != b[k] {
+                return false;
+            }
+            i += 1;
         }
-        i += 1;
+        if (o + 1) * 8 >= a.len() {
+            break;
+        }
+        o += 1;
     }
     true
 }
 
 /// Parses a decimal number of at most 20 digits starting at `*i`, advancing `*i`.
-/// Loop bound is the constant 21 so that the unwinding is static.
+/// Nested loops (5 x 4 digits, +1) so that a small global unwinding bound is enough.
 pub fn take_decimal(b: &[u8], i: &mut usize) -> Option<u64> {
     let mut v: u128 = 0;
     let mut nd = 0;
-    let mut k = 0;
-    while k < 21 {
-        if *i < b.len() && b[*i] >= b'0' && b[*i] <= b'9' {
-            v = v * 10 + (b[*i] - b'0') as u128;
-            *i += 1;
-            nd += 1;
-        } else {
+    let mut stop = false;
+    let mut o = 0;
+    while o < 6 {
+        let mut k = 0;
+        while k < 4 {
+            if !stop && *i < b.len() && b[*i] >= b'0' && b[*i] <= b'9' {
+                v = v * 10 + (b[*i] - b'0') as u128;
+                *i += 1;
+                nd += 1;
+            } else {
+                stop = true;
+            }
+            k += 1;
+        }
+        if stop {
             break;
         }
-        k += 1;
+        o += 1;
     }
     if nd == 0 || nd > 20 || v > u64::MAX as u128 {
         return None;
@@ -449,6 +539,7 @@ pub fn take_decimal(b: &[u8], i: &mut usize) -> Option<u64> {
 }
 
 pub fn take_lit(b: &[u8], i: &mut usize, lit: &[u8]) -> bool {
+    // literals are at most 8 bytes
     let mut k = 0;
     while k < lit.len() {
         if *i + k >= b.len() || b[*i + k] != lit[k] {
